@@ -130,6 +130,24 @@ def check(case):
                             break
             except report.ParseError as e:
                 fails.append(('far:unparsable', str(e)[:200]))
+        # the table in V/m (its angles are printed with two decimals)
+        r, out, err = run(argv + ['--option=far-field', '--option=far-field-absolute'])
+        if r is not None:
+            fails.append(('far:run', 'with the V/m table: return value %r: %s' % (r, (out + err)[:200])))
+        else:
+            try:
+                rep = report.parse(out)
+                rows = (rep.get('far_abs') or {}).get('rows')
+                if rows is None or len(rows) != len(want):
+                    fails.append(('far:vm-table-count', 'V/m table has %s rows for %d x %d requested'
+                                  % (None if rows is None else len(rows), th[2], ph[2])))
+                else:
+                    for rrow, w in zip(rows, want):
+                        if abs(rrow[0] - w[0]) > 0.00501 + 1e-9 * abs(w[0]) or abs(rrow[1] - w[1]) > 0.00501 + 1e-9 * abs(w[1]):
+                            fails.append(('far:vm-table-angles', 'row prints (%r, %r) for direction (%r, %r)' % (rrow[0], rrow[1], w[0], w[1])))
+                            break
+            except report.ParseError as e:
+                fails.append(('far:unparsable', str(e)[:200]))
     else:
         ax = case['axes']
         opt = ','.join([fnum(a[0]) for a in ax] + [fnum(a[1]) for a in ax] + [str(a[2]) for a in ax])
